@@ -14,16 +14,16 @@ use serde_json::{json, Value};
 use std::collections::BTreeMap;
 
 #[derive(Clone, Copy, Debug, PartialEq, Eq)]
-enum Mention { Direct, Compressed, Free }
+pub enum Mention { Direct, Compressed, Free }
 #[derive(Clone, Debug)]
-struct SecPlan { stream_format: bool, mentions: Vec<(u32, Mention)>, split: bool, filter: u8, new_root: bool, grow: u32 }
+pub struct SecPlan { stream_format: bool, mentions: Vec<(u32, Mention)>, split: bool, filter: u8, new_root: bool, grow: u32 }
 #[derive(Clone, Debug)]
-struct Plan { n_objs: u32, sections: Vec<SecPlan> }
+pub struct Plan { n_objs: u32, sections: Vec<SecPlan> }
 
 #[derive(Clone, Copy, Debug, PartialEq)]
-enum State { Undefined, Value { rev: u32, gen: u16 }, Free { gen: u16 } }
+pub enum State { Undefined, Value { rev: u32, gen: u16 }, Free { gen: u16 } }
 
-struct Built { bytes: Vec<u8>, model: BTreeMap<u32, State>, size: u32, root: u32, id0: Vec<u8>, info_title: String, prev: Option<usize>, labels: Vec<String>, mentions_per_obj: usize }
+pub struct Built { pub bytes: Vec<u8>, model: BTreeMap<u32, State>, size: u32, root: u32, id0: Vec<u8>, info_title: String, prev: Option<usize>, labels: Vec<String>, mentions_per_obj: usize }
 
 fn tracked(n: u32, rev: u32, extra: Option<Obj>) -> Obj {
     let mut items = vec![("N", Obj::Int(n as i64)), ("Rev", Obj::Int(rev as i64)), ("Tag", mkpdf::st(&format!("obj {} written by section {}", n, rev)))];
@@ -33,7 +33,7 @@ fn tracked(n: u32, rev: u32, extra: Option<Obj>) -> Obj {
 
 /// Build the file for a plan. Object 1 = catalog, 2 = page tree root (both may be rewritten by updates);
 /// tracked objects 3..=n_objs; helper objects (object streams, xref streams, new catalogs, info dicts) get fresh numbers.
-fn build(plan: &Plan) -> Built {
+pub fn build(plan: &Plan) -> Built {
     let mut w = W::new(b"", "1.6");
     let mut state: BTreeMap<u32, State> = BTreeMap::new();
     let mut next_free_nr = plan.n_objs + 1;
@@ -141,7 +141,7 @@ fn build(plan: &Plan) -> Built {
     Built { bytes: w.buf, model: state, size, root, id0: last_trailer.0, info_title: last_trailer.1, prev, labels, mentions_per_obj: multi }
 }
 
-fn gen_plan(s: &mut Src, max_objs: u32, max_updates: u32) -> Plan {
+pub fn gen_plan(s: &mut Src, max_objs: u32, max_updates: u32) -> Plan {
     let n_objs = 3 + s.draw(max_objs - 2);
     let n_sec = 1 + s.draw(max_updates + 1);
     let mut sections = Vec::new();
